@@ -53,6 +53,15 @@
      type; promoted methods count as methods of the embedding type (Go semantics).
    * A custom folder whose output is not one well-formed value (`userCode`) puts no demand
      on Fold.
+   * Rule 1 versus rule 2 for a NIL pointer `(*T)(nil)` when the custom folder belongs to the
+     POINTER type (a `Fold` method declared on the pointer receiver, or a registered
+     `func(*T, ExtVisitor) error`): the documentation says both "nil ⇒ null" and "a value with a
+     custom folder folds exactly as that folder emits it".  The code calls the folder with the
+     nil pointer (a nil-safe folder may give nil a meaning, e.g. "unlimited"); rule 2 decides.
+     For a folder declared on the VALUE receiver the method cannot be called on nil: rule 1.
+     A nil `*T` reached by dereferencing another pointer (`**T` holding `&nil`) is reported as
+     null by the code ("nil at any level"); both clauses apply, the oracle demands nothing there
+     (SF/Ops/Fold.lean `foldOracle`).
    * 6c for a NIL slice / map whose type has a custom folder: the code inlines nothing (nil
      is tested before the folder is called), the documentation is silent: no demand.
   NOT readings: points where the code used to differ from the documentation.  They were kept
@@ -145,6 +154,16 @@ def customOf (reg : Bool) (t : GoType) : Option (String × Bool) :=      -- (nam
     else if m.folder == .pointer then some (n, true)
     else none
   | _ => none
+
+/-- what the custom code of `name` emits when it is handed a NIL pointer -/
+def customNil (name : String) : Except RuleErr RVal :=
+  match customEvents name .nilPtr with
+  | none => .error .userCode
+  | some xevs =>
+    if !WF1 (expandAll xevs) then .error .userCode else
+    match build (expandAll xevs) with
+    | some val => .ok (ofValF 100000 val)
+    | none => .error .userCode
 
 def customValue (name : String) (byPtr : Bool) (v : GoVal) : Except RuleErr RVal :=
   match customEvents name (if byPtr then .ptr v else v) with
@@ -256,7 +275,13 @@ def foldF : Nat → Bool → GoType → GoVal → Except RuleErr RVal
         let kb ← keyOf kv
         let r ← foldF fuel reg e x
         pure (kb, r)).map fun mems => .obj [(true, mems)]
-    | .ptr _, .nilPtr => .ok .null                                 -- rule 1
+    | .ptr e, .nilPtr =>
+      -- rule 1 — unless the POINTER type itself carries the custom folder (Fold declared on the
+      -- pointer receiver, or a registered `func(*T, ExtVisitor)`): then rule 2 decides, the
+      -- folder is called with the nil pointer (reading, see the header)
+      (match customOf reg e with
+       | some (n, true) => customNil n
+       | _ => .ok .null)
     | .ptr e, .ptr x => foldF fuel reg e x
     | .iface, .nilIface => .ok .null
     | .iface, .iface dt dv =>
